@@ -407,7 +407,7 @@ Proof. exact worksheet_formula_members_xlsb. Qed.
    a BrtFmlaBool); a plain cell, an orphan PtgExp cell and a cell without tokens in between; an array
    formula over A6:B7; the far corner XFC1048576:XFD1048576 where +1 / +1 wraps to XFD1 / A1; and the range
    worksheet_formula builds from the first sheet *)
-Example C14_shared_formula_nonvacuous_xlsb :
+Example C14_shared_formula_xlsb_nonvacuous :
   wf_layout_b [] [] ex_shared_layout_b /\
   xlsb_sheet_formulas (fun _ => []) [] [] (flat_map enc_bitem ex_shared_layout_b ++ [(0x0092, []); (0x0082, [])])
   = Ok [((0, 3), lit "SUM(D1048576:E$2)"); ((0, 4), lit "SUM(E1048576:F$2)");
